@@ -40,7 +40,8 @@ Rec == ndJsonDeserialize(IOEnv.TRACE)
 VARIABLES
   l,         \* next line of the trace
   viol,      \* accumulated violation records of the current run
-  runInfo,   \* [run, seed, tag]
+  runInfo,   \* [run, seed, tag, seen, stale]: seen = background threads that have worked so far,
+             \* stale = those that belong to an owner that has been replaced
   lastRound, \* kind of the scenario the current lines belong to
   pend,      \* pending lock calls: set of [c, op, h, line, frozen, sd]; sd = a destroy call
              \* was pending at some time during this call
@@ -137,7 +138,7 @@ Fresh ==
   /\ lastList' = <<>> /\ listOk' = FALSE /\ two' = FALSE /\ lastRound' = "none"
 
 TraceInit ==
-  /\ l = 1 /\ viol = <<>> /\ runInfo = [run |-> 0, seed |-> 0, tag |-> ""]
+  /\ l = 1 /\ viol = <<>> /\ runInfo = [run |-> 0, seed |-> 0, tag |-> "", seen |-> {}, stale |-> {}]
   /\ lastRound = "none" /\ pend = {} /\ confs = {Conf0} /\ held = {} /\ nextKey = 1
   /\ lastList = <<>> /\ listOk = FALSE /\ two = FALSE
 
@@ -150,7 +151,7 @@ TReset ==
   /\ IF runInfo.run = 0 THEN TRUE ELSE Report
   /\ Fresh
   /\ l' = l + 1 /\ viol' = <<>>
-  /\ runInfo' = [run |-> Ev.run, seed |-> Ev.seed, tag |-> Ev.tag]
+  /\ runInfo' = [run |-> Ev.run, seed |-> Ev.seed, tag |-> Ev.tag, seen |-> {}, stale |-> {}]
 
 TEnd ==
   /\ IsEv("End")
@@ -174,6 +175,7 @@ TCall ==
   /\ IsEv("Call") /\ Ev.op \in LockOps
   /\ ~IsPending(Ev.c)
   /\ LET new == [c |-> Ev.c, op |-> Ev.op, h |-> Ev.h, line |-> l, frozen |-> FALSE,
+                 seen |-> runInfo.seen,
                  sd |-> (Ev.op = "destroy" \/ \E q \in pend : q.op = "destroy")]
          P2 == (IF Ev.op = "destroy" THEN {[q EXCEPT !.sd = TRUE] : q \in pend} ELSE pend)
                \cup {new} IN
@@ -238,8 +240,11 @@ TOpenRet ==
      /\ viol' = ((viol \o v1) \o v2) \o TwoCheck(H2, P2)
      /\ two' = (Cardinality(HeldNow(H2, P2)) >= 2)
      /\ listOk' = (listOk /\ ~Ev.ok /\ Ev.lockerr)
+     \* every background thread that worked before this open was called belongs to an earlier
+     \* owner: once this open has succeeded, that owner must have stopped
+     /\ runInfo' = IF Ev.ok THEN [runInfo EXCEPT !.stale = @ \cup p.seen] ELSE runInfo
   /\ l' = l + 1
-  /\ UNCHANGED <<runInfo, lastRound, nextKey, lastList>>
+  /\ UNCHANGED <<lastRound, nextKey, lastList>>
 
 \* ---- close (Drop): always returns; releases the lock somewhere inside its interval
 
@@ -337,6 +342,17 @@ TListing ==
   /\ l' = l + 1
   /\ UNCHANGED <<runInfo, lastRound, pend, confs, held, nextKey, two>>
 
+\* a background thread of the database begins or ends a piece of work (logged under the
+\* database mutex).  The lock is "released in Drop after background work stops": a thread of an
+\* owner that has been replaced must not be working any more
+TBgWork ==
+  /\ IsEv("BgWork")
+  /\ viol' = viol \o (IF Ev.tid \in runInfo.stale
+                      THEN C17("OldOwnerStillWorking", <<Ev.tid>>, 0) ELSE <<>>)
+  /\ runInfo' = [runInfo EXCEPT !.seen = @ \cup {Ev.tid}, !.stale = @ \ {Ev.tid}]
+  /\ l' = l + 1
+  /\ UNCHANGED <<lastRound, pend, confs, held, nextKey, lastList, listOk, two>>
+
 THang ==
   /\ IsEv("Hang")
   /\ viol' = viol \o C17("Hang", <<Ev.c>>, 0)
@@ -346,7 +362,7 @@ THang ==
 ---------------------------------------------------------------------------
 TraceNext ==
   \/ TReset \/ TEnd \/ TRound \/ TCall \/ TProbeCall \/ TProbeRet
-  \/ TOpenRet \/ TCloseRet \/ TDestroyRet \/ TWipe \/ TGate \/ TListing \/ THang
+  \/ TOpenRet \/ TCloseRet \/ TDestroyRet \/ TWipe \/ TGate \/ TListing \/ THang \/ TBgWork
 
 TraceSpec == TraceInit /\ [][TraceNext]_vars
 
